@@ -328,7 +328,7 @@ func runC20(c c20Case, tr *vw.Trace) *vw.Violation {
 
 func TestVerifC20Speaker(t *testing.T) {
 	vw.Run(t, vw.Options{Property: "C20", Engine: "speaker-concurrent",
-		Rule: "one goroutine per reconciler delivers 5..40 service events (3 services sharing / changing / losing addresses, endpoints, deletion), 1..8 configurations (L2 interface lists, peers, BGP aggregation) and 0..6 node events through the real Listener, re-syncs requested by configuration/node handlers are executed by the service goroutine; 1..3 fetcher goroutines read layer-2 status, per-service peers and the ARP decision; built with -race; final state compared with a serial replay in effect order; non-trivial = configuration/node handlers interleaved with service handlers (effect order is not a per-goroutine concatenation)",
+		Rule:        "one goroutine per reconciler delivers 5..40 service events (3 services sharing / changing / losing addresses, endpoints, deletion), 1..8 configurations (L2 interface lists, peers, BGP aggregation) and 0..6 node events through the real Listener, re-syncs requested by configuration/node handlers are executed by the service goroutine; 1..3 fetcher goroutines read layer-2 status, per-service peers and the ARP decision; built with -race; final state compared with a serial replay in effect order; non-trivial = configuration/node handlers interleaved with service handlers (effect order is not a per-goroutine concatenation)",
 		Assumptions: []string{"interleavings are produced by the Go scheduler, not enumerated; the race detector generalises each run to executions with the same happens-before graph", "memberlist disabled; the speaker under test is node0"}},
 		genC20, runC20)
 }
